@@ -511,6 +511,9 @@ NvmModule *nvm_deserialize(const uint8_t *data, uint32_t size) {
     mod->header = header;
     mod->section_count = header.section_count;
 
+    /* End of the furthest byte claimed by the directory or by a section */
+    uint32_t data_end = dir_end;
+
     /* Parse section directory */
     for (uint32_t i = 0; i < header.section_count; i++) {
         uint32_t dir_off = NVM_HEADER_SIZE + i * NVM_SECTION_ENTRY_SIZE;
@@ -522,6 +525,10 @@ NvmModule *nvm_deserialize(const uint8_t *data, uint32_t size) {
         if (sec_offset > size || sec_size > size - sec_offset) {
             nvm_module_free(mod);
             return NULL;
+        }
+
+        if (sec_offset + sec_size > data_end) {
+            data_end = sec_offset + sec_size;
         }
 
         mod->sections[i].type   = sec_type;
@@ -613,6 +620,13 @@ NvmModule *nvm_deserialize(const uint8_t *data, uint32_t size) {
                 /* Unknown section type - skip */
                 break;
         }
+    }
+
+    /* The file must end where its last section ends: bytes appended after the
+     * sections are not described by the directory and must not be accepted. */
+    if (data_end != size) {
+        nvm_module_free(mod);
+        return NULL;
     }
 
     return mod;
